@@ -241,18 +241,18 @@ def pump_lifecycle(budget, transports):
             state = {"phase": 0}
 
             def controller(call):
-                call(tasks.start)
+                call(g.gw.start)
                 state["phase"] = 1
                 sc.wait_until(lambda: state.get("A") and state.get("B"), "producers")
-                call(tasks.stop)
+                call(g.gw.stop)
                 if restart:
-                    call(tasks.start)
+                    call(g.gw.start)
                     for j in jobs["A"]:
                         call(tasks.add_job, str, j.replace("1\n", "7\n").replace("2\n", "8\n"))
                     # the controller lets the commands go out (if a pump is there to send them)
                     sc.wait_until(lambda: len(tasks.queue) == 0 or
                                   all(t.done for t in spawned), "drained")
-                    call(tasks.stop)
+                    call(g.gw.stop)
 
             def producer(name):
                 def body(call):
